@@ -120,4 +120,62 @@ theorem gen_join_obs_rightOuter (nl0 nl1 nr0 nr1 : String) (bl0 bl1 br0 br1 : B)
       flipN nl1 nl0, flipB bl1 bl0]) <;>
     (split_ifs with hh <;> first | rfl | (exfalso; exact absurd hh.symm (by assumption)) | (exfalso; exact absurd hh (by assumption)) | simp_all [hasDupName, names])
 
+
+/-! ### `_join_measurements`: one measurement on each side, each with one parameter configuration -/
+
+section meas
+variable {P : Type} [DecidableEq P]
+
+def renderMeas (ms : List (Item (Meas P))) : List (String × String × List (String × P)) :=
+  ms.map fun m => (m.name, m.body.poi, m.body.parameters.map fun q => (q.name, q.body))
+
+/-- the model's measurement join of the same two measurements; `none` = `InvalidWorkspaceOperation` -/
+def modelMeas (j : Join) (ml mr poil poir pl pr : String) (cl cr : P) : Option (List (String × String × List (String × P))) :=
+  match joinMeasurements j [⟨ml, ⟨poil, [⟨pl, cl⟩]⟩⟩] [⟨mr, ⟨poir, [⟨pr, cr⟩]⟩⟩] with
+  | .ok l => some (renderMeas l)
+  | .error _ => none
+
+theorem gen_join_meas_none (ml mr poil poir pl pr : String) (cl cr : P) :
+    Gen.join_meas_none ml mr poil poir pl pr cl cr = modelMeas .none ml mr poil poir pl pr cl cr := by
+  unfold Gen.join_meas_none modelMeas joinMeasurements
+  by_cases h : ml = mr
+  · subst h; simp [commonNames, names]
+  · simp [commonNames, names, joinItems, renderMeas, h, Ne.symm h]
+
+theorem gen_join_meas_leftOuter (ml mr poil poir pl pr : String) (cl cr : P) :
+    Gen.join_meas_leftOuter ml mr poil poir pl pr cl cr = modelMeas .leftOuter ml mr poil poir pl pr cl cr := by
+  unfold Gen.join_meas_leftOuter modelMeas joinMeasurements
+  by_cases h : ml = mr
+  · subst h; simp [names, joinItems, renderMeas]
+  · simp [names, joinItems, renderMeas, h, Ne.symm h]
+
+theorem gen_join_meas_rightOuter (ml mr poil poir pl pr : String) (cl cr : P) :
+    Gen.join_meas_rightOuter ml mr poil poir pl pr cl cr = modelMeas .rightOuter ml mr poil poir pl pr cl cr := by
+  unfold Gen.join_meas_rightOuter modelMeas joinMeasurements
+  by_cases h : ml = mr
+  · subst h; simp [names, joinItems, renderMeas]
+  · simp [names, joinItems, renderMeas, h, Ne.symm h]
+
+/-- **outer join of measurements**: an identical measurement appears once; the same name with the same POI merges the parameter
+configurations (identical ones once, a common name with different settings refused); the same name with another POI is refused -/
+theorem gen_join_meas_outer (ml mr poil poir pl pr : String) (cl cr : P) :
+    Gen.join_meas_outer ml mr poil poir pl pr cl cr = modelMeas .outer ml mr poil poir pl pr cl cr := by
+  unfold Gen.join_meas_outer modelMeas joinMeasurements
+  by_cases h : ml = mr
+  · subst h
+    by_cases hp : poil = poir
+    · subst hp
+      by_cases hn : pl = pr
+      · subst hn
+        by_cases hc : cl = cr
+        · subst hc; simp [names, joinItems, renderMeas, hasDupName, List.eraseDups, List.eraseDupsBy, List.eraseDupsBy.loop, List.mapM_cons, List.mapM_nil, Functor.map, Except.map, pure, Except.pure, bind, Except.bind]
+        · simp [names, joinItems, renderMeas, hasDupName, List.eraseDups, List.eraseDupsBy, List.eraseDupsBy.loop, List.mapM_cons, List.mapM_nil, Functor.map, Except.map, pure, Except.pure, bind, Except.bind, hc, Ne.symm hc]
+      · simp [names, joinItems, renderMeas, hasDupName, List.eraseDups, List.eraseDupsBy, List.eraseDupsBy.loop, List.mapM_cons, List.mapM_nil, Functor.map, Except.map, pure, Except.pure, bind, Except.bind, hn, Ne.symm hn]
+    · have hb : (poir == poil) = false := by simpa using Ne.symm hp
+      simp [names, joinItems, renderMeas, hasDupName, List.eraseDups, List.eraseDupsBy, List.eraseDupsBy.loop, List.mapM_cons, List.mapM_nil, Functor.map, Except.map, pure, Except.pure, bind, Except.bind, hp, Ne.symm hp, hb]
+  · have hb : (mr == ml) = false := by simpa using Ne.symm h
+    simp [names, joinItems, renderMeas, hasDupName, List.eraseDups, List.eraseDupsBy, List.eraseDupsBy.loop, List.mapM_cons, List.mapM_nil, Functor.map, Except.map, pure, Except.pure, bind, Except.bind, h, Ne.symm h, hb]
+
+end meas
+
 end Pyhf.Props.C16
